@@ -504,6 +504,45 @@ Definition witness_skipped_day : c03case :=
 Lemma refuted_skipped_day : spec_C03 witness_skipped_day (run_C03 witness_skipped_day) = false /\ known_C03 witness_skipped_day = [4].
 Proof. vm_compute. split; reflexivity. Qed.
 
+(* class 5 (open): two peers concurrently add DIFFERENT references to the same row; the references of
+   the losing version never reach the other peer (references travel only with a row version that passes
+   filter_existing): peer 0 shows 1->3 and 1->2, peer 1 shows 1->3 only, and nothing moves any more *)
+Definition witness_ref_lost : c03case :=
+  C03Case 2%N [Create 0%N 1%N 1001 1%N; Create 0%N 2%N 1002 2%N; Create 0%N 3%N 1003 3%N; Pull 1%N 0%N [0];
+               AddRef 0%N 1%N 2%N 11000 4%N; AddRef 1%N 1%N 3%N 21000 5%N; Pull 0%N 1%N [0]; Pull 1%N 0%N []]
+              [Pull 0%N 1%N []; Pull 1%N 0%N []; Pull 0%N 1%N []; Pull 1%N 0%N []].
+Lemma refuted_ref_lost :
+  spec_C03 witness_ref_lost (run_C03 witness_ref_lost) = false /\ known_C03 witness_ref_lost = [5] /\
+  c03_quiet witness_ref_lost = true /\
+  map (fun r => map (fun e => (e_src e, e_dest e)) (shown_refs r)) (run_sys (init_sys 2%N) (c03_ops witness_ref_lost)) =
+  [[(1%N, 3%N); (1%N, 2%N)]; [(1%N, 3%N)]].
+Proof. vm_compute. repeat split; reflexivity. Qed.
+
+(* class 6 (open): the same reference added on two peers (two creation dates), the later one removed: the
+   deletion record removes only the exactly named version, the older version stays on peer 0, below the
+   record it holds; peer 1 never shows the reference again *)
+Definition witness_ref_below : c03case :=
+  C03Case 2%N [Create 0%N 1%N 1000 1%N; Create 0%N 2%N 1001 3%N; Pull 1%N 0%N [0];
+               AddRef 0%N 1%N 2%N 11000 5%N; AddRef 1%N 1%N 2%N 21000 2%N; DelRef 1%N 1%N 2%N 31000 4%N; Pull 0%N 1%N [0]; Pull 1%N 0%N []]
+              [Pull 0%N 1%N []; Pull 1%N 0%N []; Pull 0%N 1%N []; Pull 1%N 0%N []].
+Lemma refuted_ref_below :
+  spec_C03 witness_ref_below (run_C03 witness_ref_below) = false /\ known_C03 witness_ref_below = [6] /\
+  map (fun r => (length (shown_refs r), length (etombs r))) (run_sys (init_sys 2%N) (c03_ops witness_ref_below)) = [(1, 1); (0, 1)]%nat.
+Proof. vm_compute. repeat split; reflexivity. Qed.
+
+(* the hypotheses of [outside_known] are satisfiable with references: add, pull, remove, add again *)
+Definition example_refs_ok : c03case :=
+  C03Case 2%N [Create 0%N 1%N 1001 1%N; Create 0%N 2%N 1002 2%N; Pull 1%N 0%N [0];
+               AddRef 0%N 1%N 2%N 11000 4%N; Pull 1%N 0%N [0]; DelRef 1%N 1%N 2%N 21000 5%N; AddRef 1%N 1%N 2%N 31000 6%N; Pull 0%N 1%N [0]]
+              [Pull 0%N 1%N []; Pull 1%N 0%N []; Pull 0%N 1%N []; Pull 1%N 0%N []].
+Lemma refs_nonvacuous :
+  spec_C03 example_refs_ok (run_C03 example_refs_ok) = true /\ known_C03 example_refs_ok = [] /\
+  c03_quiet example_refs_ok = true /\ c03_envelope example_refs_ok = true /\
+  full_round 2%N (c03_final example_refs_ok) = true /\
+  map (fun r => (map e_cdate (shown_refs r), length (etombs r))) (run_sys (init_sys 2%N) (c03_ops example_refs_ok)) =
+  [([31000], 1%nat); ([31000], 1%nat)].
+Proof. vm_compute. repeat split; reflexivity. Qed.
+
 (* formerly class 3 (fixed by bb1bffb): both peers delete one row on the same day; both now hold both records *)
 Definition witness_two_records : c03case :=
   C03Case 2%N
